@@ -301,8 +301,8 @@ package service
 //@   props C06 C15 C18
 //@   params h ctx clientConn connMetrics
 //@   requires validStreamHandler(h) && ctx != nil && clientConn != nil
-//@   trace[C15,closed-reported-once] exactly 1 service.TCPConnMetrics.AddClosed
-//@   trace[C15,closed-after-handling] before service.(*streamHandler).handleConnection service.TCPConnMetrics.AddClosed
+//@   trace[C15,C17,closed-reported-once] exactly 1 service.TCPConnMetrics.AddClosed
+//@   trace[C15,C17,closed-after-handling] before service.(*streamHandler).handleConnection service.TCPConnMetrics.AddClosed
 //@   trace[C15,connection-closed-after-report] before service.TCPConnMetrics.AddClosed transport.StreamConn.Close
 //@   trace[C15,connection-closed-once] exactly 1 transport.StreamConn.Close
 //@   trace[C15,status-is-outcome] each service.TCPConnMetrics.AddClosed satisfies (evres("service.(*streamHandler).handleConnection", 0) == nil ==> $arg0 == "OK") \
@@ -397,8 +397,8 @@ package service
 //@     && 0 <= i \
 //@     && (forall j int :: 0 <= j && j < i ==> validElem(cipherArray[j])) \
 //@     && (forall j int :: 0 <= j && j <= cl.list.n ==> uf_cntM_int(cl.list, clientIP, cl.list.n) <= uf_cntM_int(cl.list, clientIP, j) + cl.list.n - j)
-//@   ensures[C01,snapshot-has-every-slot-filled] forall i int :: 0 <= i && i < len(result) ==> validElem(result[i])
-//@   ensures[C01,snapshot-size] len(result) == atlock(cl.list.n)
+//@   ensures[C01,C09,snapshot-has-every-slot-filled] forall i int :: 0 <= i && i < len(result) ==> validElem(result[i])
+//@   ensures[C01,C09,snapshot-size] len(result) == atlock(cl.list.n)
 
 //@ func (*cipherList).MarkUsedByClientIP
 //@   props C01 C18 C19
@@ -581,7 +581,7 @@ package service
 //@   trace[C14,deadline-extended-on-every-write] exactly 1 service.(*natconn).onWrite
 //@   trace[C14,deadline-extended-before-sending] before service.(*natconn).onWrite net.PacketConn.WriteTo
 //@   trace[C14,deadline-for-this-destination] each service.(*natconn).onWrite satisfies $arg1 == dst
-//@   trace[C03,sends-what-it-was-given] each net.PacketConn.WriteTo satisfies sameslice($arg0, buf) && $arg1 == dst && result.0 == $res0 && result.1 == $res1
+//@   trace[C03,C16,sends-what-it-was-given] each net.PacketConn.WriteTo satisfies sameslice($arg0, buf) && $arg1 == dst && result.0 == $res0 && result.1 == $res1
 //@ func (*natconn).ReadFrom
 //@   props C14 C18
 //@   params c buf
@@ -630,8 +630,8 @@ package service
 //@   params m clientAddr clientConn cryptoKey targetConn keyID
 //@   requires validNatmap(m) && clientAddr != nil && clientConn != nil && cryptoKey != nil && targetConn != nil
 //@   ensures validNatconn(result) && result.cryptoKey == cryptoKey
-//@   trace[C16,added-once] exactly 1 service.UDPMetrics.AddUDPNatEntry
-//@   trace[C16,added-with-key-and-client] each service.UDPMetrics.AddUDPNatEntry satisfies $arg0 == clientAddr && $arg1 == keyID
+//@   trace[C16,C17,added-once] exactly 1 service.UDPMetrics.AddUDPNatEntry
+//@   trace[C16,C17,added-with-key-and-client] each service.UDPMetrics.AddUDPNatEntry satisfies $arg0 == clientAddr && $arg1 == keyID
 //@   trace[C04,stored-under-client-address] each service.(*natmap).set satisfies $arg1 == pure("net.Addr.String", clientAddr) && $arg2 == targetConn && $arg3 == cryptoKey && $arg4 == evres("service.UDPMetrics.AddUDPNatEntry", 0)
 //@   trace[C04,stored-once] exactly 1 service.(*natmap).set
 //@   trace[C14,one-reclaimer] exactly 1 go:service.(*natmap).Add$1
@@ -640,8 +640,8 @@ package service
 //@   props C04 C14 C16 C18
 //@   goroutine
 //@   requires validNatmap(m) && clientAddr != nil && clientConn != nil && validNatconn(entry) && connMetrics != nil
-//@   trace[C16,removed-once] exactly 1 service.UDPConnMetrics.RemoveNatEntry
-//@   trace[C14,removal-after-expiry] before service.timedCopy service.UDPConnMetrics.RemoveNatEntry
+//@   trace[C16,C17,removed-once] exactly 1 service.UDPConnMetrics.RemoveNatEntry
+//@   trace[C14,C17,removal-after-expiry] before service.timedCopy service.UDPConnMetrics.RemoveNatEntry
 //@   trace[C14,entry-deleted-once] exactly 1 service.(*natmap).del
 //@   trace[C14,deleted-after-report] before service.UDPConnMetrics.RemoveNatEntry service.(*natmap).del
 //@   trace[C04,deletes-own-key] each service.(*natmap).del satisfies $arg1 == pure("net.Addr.String", clientAddr)
@@ -701,7 +701,7 @@ package service
 //@   trace[C03,existing-association-uses-its-key] each shadowsocks.Unpack satisfies $arg2 == targetConn.cryptoKey && $arg1.$arr == cipherBuf.$arr && len($arg1) == clientProxyBytes
 //@   trace[C03,new-association-bound-to-found-key] each service.(*natmap).Add satisfies $arg3 == evres("service.findAccessKeyUDP", 2) && $arg5 == evres("service.findAccessKeyUDP", 1) \
 //@        && $arg1 == clientAddr && $arg2 == clientConn && $arg4 == evres("net.ListenPacket", 0) && targetConn == $res0
-//@   trace[C03,trial-decryption-into-scratch] each service.findAccessKeyUDP satisfies sameslice($arg1, textBuf) && $arg2.$arr == cipherBuf.$arr && len($arg2) == clientProxyBytes && $arg3 == h.ciphers
+//@   trace[C03,C09,trial-decryption-into-scratch] each service.findAccessKeyUDP satisfies sameslice($arg1, textBuf) && $arg2.$arr == cipherBuf.$arr && len($arg2) == clientProxyBytes && $arg3 == h.ciphers
 //@   trace[C04,lookup-by-client-address] each service.(*natmap).Get satisfies $arg1 == pure("net.Addr.String", clientAddr)
 //@   trace[C04,one-lookup] atmost 1 service.(*natmap).Get
 //@   trace[C04,only-the-reclaimer-removes-associations] never service.(*natmap).del
